@@ -163,8 +163,11 @@ def r18_2(ctx: Ctx):
     opt_defs = {name for name, ds in local_defs(rs).items() if ds and all(_mentions_option(d) for d in ds if not isinstance(d, ast.AugAssign))}
     for f, n, sub in stores:
         if f is base_init:
-            ok = isinstance(getattr(n, "value", None), ast.Constant) and n.value.value is False and sub is not None and is_self_attr(sub, None, f.self_name())
-            obs.append(ctx.ob("R18.2", f, n, status=OK if ok else VIOLATION, detail="demes are constructed awake" if ok else f"a deme is constructed with `{norm(n)}`"))
+            from ..core import resolve_constant
+
+            v0 = resolve_constant(ctx, f, n.value) if getattr(n, "value", None) is not None else None
+            ok = isinstance(v0, ast.Constant) and v0.value is False and sub is not None and is_self_attr(sub, None, f.self_name())
+            obs.append(ctx.ob("R18.2", f, n, status=OK if ok else VIOLATION if isinstance(v0, ast.Constant) else INCONCLUSIVE, detail="demes are constructed awake" if ok else f"a deme is constructed with `{norm(n)}`"))
         elif f is rs:
             node = next((x for x in cfg.nodes if x.kind == "stmt" and x.ast is n), None)
             if node is None:
@@ -342,9 +345,13 @@ def _nonconst_store_verdict(value, defs, recv, seeds_name, facts) -> str:
 
 
 def _core_iter(e):
-    while isinstance(e, ast.Call) and isinstance(e.func, ast.Name) and e.func.id in ("reversed", "list", "tuple", "sorted", "iter") and e.args:
-        e = e.args[0]
-    return e
+    while True:
+        if isinstance(e, ast.Call) and isinstance(e.func, ast.Name) and e.func.id in ("reversed", "list", "tuple", "sorted", "iter") and e.args:
+            e = e.args[0]
+        elif isinstance(e, ast.Subscript) and isinstance(e.slice, ast.Slice) and e.slice.lower is None and e.slice.upper is None:
+            e = e.value  # x[::-1] / x[:] : the same elements
+        else:
+            return e
 
 
 def r18_4(ctx: Ctx):
